@@ -189,8 +189,8 @@ def read_desc(text):
         if len(ex) > 1:
             # different codes for one terminal: documented error
             return ("valid_error", 7)
-        if len(cs) > 1 and (None in cs):
-            grey.append("terminal declared repeatedly without code")
+        # repeated declarations: without code they are harmless (the code is the implicit one of the first
+        # appearance); a declaration with a code gives the terminal that explicit code wherever it stands
         explicit |= ex
     for name in order:
         cs = first[name]
@@ -292,10 +292,19 @@ def print_desc(rng, g, implicit=False):
             else:
                 codes[n] = c
                 s += ws() + "=" + ws() + str(c)
-        if repeat_from and not implicit and rng.random() < 0.3:
+        if repeat_from and rng.random() < 0.35:
+            # a repeated declaration (possibly ahead of the section that declares the terminal): without a code,
+            # or with the same code -- harmless either way; a code-less first appearance fixes the implicit code
             n, c = rng.choice(repeat_from)
-            if n in codes:
-                s += ws(True) + n + ws() + "=" + ws() + str(codes[n])
+            if implicit:
+                if n not in codes:
+                    codes[n] = nxt
+                    nxt += 1
+                s += ws(True) + n
+            elif rng.random() < 0.4:
+                s += ws(True) + n
+            else:
+                s += ws(True) + n + ws() + "=" + ws() + str(c)
         s += rng.choice([";", ws(True), " ;\n", "\n"])
         return s
     # group rules by consecutive lhs
@@ -335,7 +344,7 @@ def print_desc(rng, g, implicit=False):
     pieces = []
     pending = list(decl_chunks)
     if pending and (rng.random() < 0.8 or len(rule_texts) == 0):
-        pieces.append(term_section(pending.pop(0)))
+        pieces.append(term_section(pending.pop(0), repeat_from=ident_terms if rng.random() < 0.5 else None))
     for rt in rule_texts:
         pieces.append(rt)
         if pending and rng.random() < 0.5:
